@@ -169,11 +169,45 @@ pub fn read<const N: usize, Ns>(reader: impl Read) -> Result<Mappings<N, Ns>> {
 	Ok(mappings)
 }
 
+/// Undoes [`escape`]. An unknown escape sequence (and a backslash at the very end) is kept as written.
 pub(crate) fn unescape(s: String) -> String {
-	s.replace("\\n", "\n")
+	if !s.contains('\\') {
+		return s;
+	}
+	let mut out = String::with_capacity(s.len());
+	let mut chars = s.chars();
+	while let Some(ch) = chars.next() {
+		if ch != '\\' {
+			out.push(ch);
+			continue;
+		}
+		match chars.next() {
+			Some('\\') => out.push('\\'),
+			Some('n') => out.push('\n'),
+			Some('r') => out.push('\r'),
+			Some('t') => out.push('\t'),
+			Some('0') => out.push('\0'),
+			Some(other) => { out.push('\\'); out.push(other); },
+			None => out.push('\\'),
+		}
+	}
+	out
 }
+/// Escapes a comment the way the Tiny v2 format asks for: backslash, line feed, carriage return, tab and NUL
+/// are written as `\\`, `\n`, `\r`, `\t` and `\0`.
 pub(crate) fn escape(s: &str) -> String {
-	s.replace('\n', "\\n")
+	let mut out = String::with_capacity(s.len());
+	for ch in s.chars() {
+		match ch {
+			'\\' => out.push_str("\\\\"),
+			'\n' => out.push_str("\\n"),
+			'\r' => out.push_str("\\r"),
+			'\t' => out.push_str("\\t"),
+			'\0' => out.push_str("\\0"),
+			ch => out.push(ch),
+		}
+	}
+	out
 }
 
 fn add_comment(javadoc: &mut Option<JavadocMapping>, line: TinyLine) -> Result<()> {
